@@ -42,7 +42,10 @@ def l1_both(ctx, release_scale_quick="0.25", miri_shards=0):
 
 
 def run_c01(ctx):
-    return l1_both(ctx)
+    import l2
+    res = l1_both(ctx)
+    l2.c01_cli(ctx, res, 40 if not ctx.thorough() else 400)
+    return res
 
 
 def run_c03(ctx):
